@@ -990,6 +990,13 @@ func (t *State) verifyDAGTxs(blockHeight int64, txs []*pb.Transaction, isRootTx 
 // outputs (the award, or the genesis distribution). Spending outputs, reading or writing keys
 // and invoking contracts need a verified user or timer transaction.
 func verifyCoinbaseTxValid(tx *pb.Transaction) bool {
+	for _, txOutput := range tx.TxOutputs {
+		// a fee output is paid to the block's proposer out of the paying transaction's inputs; a
+		// coinbase has none, so the payment would be new tokens that the total supply never sees
+		if bytes.Equal(txOutput.ToAddr, []byte(FeePlaceholder)) {
+			return false
+		}
+	}
 	return len(tx.TxInputs) == 0 && len(tx.TxInputsExt) == 0 && len(tx.TxOutputsExt) == 0 &&
 		len(tx.ContractRequests) == 0
 }
